@@ -49,11 +49,14 @@ PROPS = {
     "C05": {"category": "exploration", "driver": "C05", "claimed": True,
             "technique": "bounded exhaustive run-time check of the six sparse/dense converters and transform over all valid sparse outputs x index types; "
                          "the two NumPy labelling loops (ChangeDetector.sparse_to_dense, SubsetCollectiveAnomalyDetector.sparse_to_dense) are "
-                         "additionally under contract (own AST->VC generator, z3/cvc5) with the pandas accessors around them assumed",
+                         "additionally under contract (own AST->VC generator, z3/cvc5) with the pandas accessors around them assumed, and so is "
+                         "BaseDetector.transform for PELT, SeededBinarySegmentation and MVCAPA (converter preconditions discharged from the C04 posts, lemma L_chain)",
             "level_text": "Every valid sparse output for n<=5 (thorough 7), all index types of the quantifier and column labels; round trip and positional "
                           "labelling (bounded). Proved for all inputs on the real code: position t gets the number of changepoints <= t "
                           "(ChangeDetector.sparse_to_dense); cell (t, c) gets label a+1 iff t lies in anomaly a and c is one of its columns, 0 elsewhere "
-                          "(SubsetCollectiveAnomalyDetector.sparse_to_dense). The other four converters and transform are pandas label/position glue: "
+                          "(SubsetCollectiveAnomalyDetector.sparse_to_dense); BaseDetector.transform of PELT, SeededBinarySegmentation and MVCAPA (16 penalty kinds) "
+                          "returns exactly that labelling of THIS call's predict(X), one row per row of X, for arbitrary (uninterpreted) index labels. The other "
+                          "four converters and the transform of the remaining detectors are pandas label/position glue: "
                           "run-time only. The claim stays at the bounded level because the index/label clauses are decided by the bounded tier alone.",
             "level_note": "pandas semantics (frame column access, IntervalIndex left/right/closed, len(index), DataFrame constructor) is assumed in the two "
                           "proved loops and trusted elsewhere"},
@@ -64,7 +67,9 @@ PROPS = {
                           "(uninterpreted cost); squared CUSUM == L2 change score computed from rows (L_cusum) and L2Saving == SQDEV(0)-RSS proved on the real "
                           "kernels and classes; non-negativity of CUSUM/L2 saving proved. LocalAnomalyScore (fit, _check_cuts, _evaluate, evaluate): value == C(outer) - (C(inner) + C of the pooled "
                           "surrounding rows refitted with a clone of the same configuration), for every data-keyed cost (token = FITTOK(kind, data); the pooled array "
-                          "is proved elementwise to be the rows [c0,c1) then [c2,c3) of X). optimal<=fixed and split inequality for the Gaussian "
+                          "is proved elementwise to be the rows [c0,c1) then [c2,c3) of X). to_saving / to_change_score / to_local_anomaly_score: the cost passed in is "
+                          "wrapped, as the same object, in exactly Saving / ChangeScore / LocalAnomalyScore, scores pass through (proved; isinstance on interface-typed "
+                          "objects undetermined for proper subclasses). optimal<=fixed and split inequality for the Gaussian "
                           "costs: bounded only.",
             "level_note": "interface contract of user costs assumed; sktime clone/set_params assumed; floats as reals"},
     "C07": {"category": "proof", "driver": "C07", "claimed": True, "lemmas": ["L_greedy_mono"],
